@@ -30,7 +30,8 @@ RULE = ("history = a configuration endpoint and up to 8 node servers behind one 
         "nodes are used); no command reaches a node that is no longer advertised; every key-addressed call succeeds; "
         "sockets to replaced nodes are closed; the ERROR endpoint makes construction fail with a MemcacheError "
         "(MemcacheUnknownCommandError), without waiting for an end token that will never come. Node lists include nodes that share an address and differ only in the port (one host name and IP with three ports; a node sharing only its IP, another only its host name, with a second node). Large clusters: 1 ... 200 nodes (thorough 1000), sizes straddling the points where the reply crosses one and two receive buffers, delivered whole, in buffer-sized and in small pieces; scale-down to a third and back. Clients side by side: two ElastiCache clients for two clusters (each behind its own endpoint and fake network; overlapping or disjoint node sets, any use_vpc mix, pooled or not) alive in one process and used alternately / one after the other with the same keys, optionally with a re-discovery of one of them half-way: every set/get of a client reaches exactly one node its own endpoint advertises and nothing of the other cluster. Non-trivial: a "
-        "scale-down or replacement followed by traffic, or a reply cut inside the node line or the end token. Before a reconfiguration the application may add a server of its own through add_server, in eight spellings (tuple, host:port, host alone, [v6]:port, unix:path, path, text port, capitals), followed by single-key traffic; after the reconfiguration the usual rules apply (rotation and client table = advertised list, no command or open socket to anything else). Node clients may be of a Client subclass that holds a second connection (closed by its own close()). Two users refreshing one client at once (every pattern of handing over at the first six socket calls): both succeed, rotation = advertised list, nothing stale left open. The cluster payload may come with CR LF line ends or a very large version number. A refresh may fail (the endpoint answers ERROR / SERVER_ERROR, or is unreachable) between refreshes that succeed: it raises the memcached or network error, and after the next successful refresh everything is as if it had not happened.")
+        "scale-down or replacement followed by traffic, or a reply cut inside the node line or the end token. Before a reconfiguration the application may add a server of its own through add_server, in eight spellings (tuple, host:port, host alone, [v6]:port, unix:path, path, text port, capitals), followed by single-key traffic; after the reconfiguration the usual rules apply (rotation and client table = advertised list, no command or open socket to anything else). Node clients may be of a Client subclass that holds a second connection (closed by its own close()). Two users refreshing one client at once (every pattern of handing over at the first six socket calls): both succeed, rotation = advertised list, nothing stale left open. The cluster payload may come with CR LF line ends or a very large version number. A refresh may fail (the endpoint answers ERROR / SERVER_ERROR, or is unreachable) between refreshes that succeed: it raises the memcached or network error, and after the next successful refresh everything is as if it had not happened."
+        + ' Node names of other shapes (one label, *.ec2.internal, a trailing dot, a 63-character label, an IPv6 address, a long top-level domain with port 65535); a TLS context with check_hostname on, with use_vpc on and off.')
 MANIFEST = {
     "category": "exploration",
     "technique": "Hypothesis-generated reconfiguration histories + systematic 1-/2-cut segmentations of the discovery reply, against a fake configuration endpoint and per-node memcached models; set-equality oracle between advertised nodes, rotation, contacted addresses and closed sockets",
